@@ -22,12 +22,13 @@
                          with a smaller window (tr_c16_shrink).
    C16_bound_const_window  MAIN THEOREM.  c16_bound holds of every accepted trace on which the
                          window does not shrink between the connections of a session
-                         (c16_window_const, Broker/ConnProofsCDefs.v: at every Setup that
-                         continues a session (not fresh) the window is >= the window of the
-                         previous Setup; and NextID never returns an id that is still in the
-                         outgoing store, which would take 65535 allocations while one message stays
-                         unacknowledged).  No assumption on the peer: the clause itself excuses a
-                         peer that acknowledged an id not in flight, for the rest of the session.
+                         (c16_window_const, Broker/ConnProofsCDefs.v: as long as the peer has not
+                         acknowledged an id not in flight — the clause excuses such a peer for the
+                         rest of the session anyway —, at every Setup that continues a session (not
+                         fresh) the window is >= the window of the previous Setup, and NextID does
+                         not return an id that is still in the outgoing store, which would take
+                         65535 allocations while one message stays unacknowledged).  No assumption
+                         on the peer.
    C16_bound_partial     c16_bound holds of every accepted trace on which, at every resume,
                          the listing of the outgoing store (EAll Outgoing) contains at most W
                          packets, W the window of that connection (c16_resume_fits).
